@@ -138,3 +138,31 @@ pub fn pp(degree: usize) -> Arc<PublicParameters> {
     cache.lock().unwrap().insert(degree, out.clone());
     out
 }
+
+// ---------------------------------------------------------------------------
+// Rayon pools of chosen sizes. Code called from a plain OS thread runs its
+// rayon work on the global pool (one size, a power of two on this machine);
+// the library's chunking depends on `current_num_threads()`, so checks that
+// are not about scheduling still rotate through pool sizes, including sizes
+// that do not divide a power-of-two domain.
+// ---------------------------------------------------------------------------
+
+/// Pool sizes rotated through by the functional checks.
+pub const POOL_SIZES: [usize; 12] = [1, 3, 16, 2, 5, 12, 4, 6, 17, 7, 8, 24];
+
+/// Run `f` on a thread of a cached rayon pool with `threads` threads
+/// (`lane` picks one of a few pools of that size, so that concurrent callers
+/// do not all queue on one pool). Everything `f` does, thread-locals included,
+/// happens on that one pool thread; nested rayon work is spread over the pool.
+#[cfg(feature = "plonk-std")]
+pub fn in_pool<T: Send>(threads: usize, lane: u64, f: impl FnOnce() -> T + Send) -> T {
+    static POOLS: OnceLock<Mutex<HashMap<(usize, u64), Arc<rayon::ThreadPool>>>> = OnceLock::new();
+    let key = (threads.max(1), lane % 4);
+    let pool = {
+        let mut m = POOLS.get_or_init(|| Mutex::new(HashMap::new())).lock().unwrap();
+        m.entry(key)
+            .or_insert_with(|| Arc::new(rayon::ThreadPoolBuilder::new().num_threads(key.0).build().expect("rayon pool")))
+            .clone()
+    };
+    pool.install(f)
+}
